@@ -177,6 +177,9 @@ def check(model: Model, tier: str):
     obs.append(Ob("EXACT-DIV", "fixture:EXACT-DIV:positive-example", OK if okfx else ERROR, "ttsa/props/c13.py", "_RECIP_FIXTURE",
                   "the built-in positive example is flagged and its dividing twin is not" if okfx else "the EXACT-DIV rule no longer recognises its positive example"))
     obs += e5ob.for_property(model, "C13", tier)
+    # the size identifications made inside the two division operators belong to this property as well: a core-wise shortcut that combines cores
+    # of different bond sizes (or broadcasts a bond) does not compute the quotient
+    obs += [o for o in e5ob.unification_obligations(model, tier, only_funcs=("_tt_base.TT.__truediv__", "_tt_base.TT.__rtruediv__")) if o.rule == "E5-UNIFY"]
     obs += type_body(model, "_division.amen_divide")
     obs += rule_defattr(model, "torchtt._division.LinearOp")
     eng = Effects(model)
